@@ -1035,6 +1035,8 @@ func (x *Exec) loopEventTokens(fn *ssa.Function, body []*ssa.BasicBlock, inlined
 							toks["lock"], toks["unlock"] = true, true
 						case strings.Contains(name, "WaitGroup)."):
 							toks["wg"], toks["wg."+m] = true, true
+						case strings.HasPrefix(name, "sync/atomic."):
+							toks["atomic"], toks["atomic."+m] = true, true
 						case strings.HasPrefix(name, "timex."), strings.Contains(name, "timex."):
 							toks["timex.Now"], toks["Now"] = true, true
 						}
@@ -1562,7 +1564,7 @@ func (x *Exec) callResolved(st *State, fr *Frame, instr ssa.CallInstruction, com
 		if isLiteral(iv.Tag.S) && iv.Tag.S != "0" {
 			var id int
 			fmt.Sscan(iv.Tag.S, &id)
-			if T, ok := x.typeByID[id]; ok {
+			if T, ok := x.typeByID[id]; ok && x.prog.MethodSets.MethodSet(T).Lookup(com.Method.Pkg(), com.Method.Name()) != nil {
 				if m := x.prog.LookupMethod(T, com.Method.Pkg(), com.Method.Name()); m != nil {
 					rv := x.unbox(st, iv, T)
 					return x.callStatic(st, fr, resInstr, m, nil, append([]Value{rv}, args...), isDefer, com)
